@@ -1,2 +1,149 @@
--- stub: replaced by the index engine driver
-def main : IO Unit := pure ()
+/-
+Line-protocol driver for the memtable index engine (C07).
+Reply format: `<model>\t<spec>`.  The model column is `s=<skiplist model> a=<ART model>`,
+the spec column is the same line computed from the reference ordered map over
+`(user key asc, version desc)` pairs — it never looks at the byte encoding of versions or at
+`compareKeys`.
+
+ops:  init <arenaBytes>
+      add <ukey> <ver> <val>          addbig <seed> <len> <ver> <val>
+      get <ukey> <ver>                getbig <seed> <len> <ver>
+      seek asc|desc <ukey> <ver> <n>  scan asc|desc
+      conc <u:v:val,...;u:v:val,...>  (goroutine lists; the model inserts them in listed order)
+      concstress <goroutines> <keys> <rounds>
+-/
+import Driver.Lib
+import NoKVModel.Index.Key
+import NoKVModel.Index.Ref
+import NoKVModel.Index.Art
+
+open NoKV NoKV.Index Driver
+
+abbrev SpecKey := Bytes × Nat
+
+def specLt (a b : SpecKey) : Bool := Bytes.lt a.1 b.1 || (a.1 == b.1 && decide (b.2 < a.2))
+
+structure St where
+  c : IdxCfg := IdxCfg.good
+  skl : List Entry := []
+  art : ArtIdx := {}
+  spec : List (SpecKey × Bytes) := []
+
+def parseRadix? : String → Option RadixKey
+  | "raw" => some .raw | "ordered" => some .ordered | _ => none
+
+def setCfg (st : St) (kv : String) : Option St :=
+  match kv.splitOn "=" with
+  | [k, v] =>
+    match k with
+    | "ck.baseThenTs" => do let b ← boolOfString? v; pure { st with c := { st.c with ckBaseThenTs := b } }
+    | "key.tsInverted" => do let b ← boolOfString? v; pure { st with c := { st.c with tsInverted := b } }
+    | "skl.compareKeys" => do let b ← boolOfString? v; pure { st with c := { st.c with sklCompareKeys := b } }
+    | "art.leafLbOp" => do let o ← CmpOp.ofString? v; pure { st with c := { st.c with artLeafLbOp := o } }
+    | "art.leafUbOp" => do let o ← CmpOp.ofString? v; pure { st with c := { st.c with artLeafUbOp := o } }
+    | "art.radixKey" => do let r ← parseRadix? v; pure { st with c := { st.c with artRadixKey := r } }
+    | "art.padByte" => do let n ← natOf? v; pure { st with c := { st.c with artPadByte := n } }
+    | "art.parentRevalidated" => do let b ← boolOfString? v; pure { st with c := { st.c with artParentRevalidated := b } }
+    | "idx.keyLen" =>
+        if v == "u16-unchecked" then some { st with c := { st.c with keyLenBits := 16 } }
+        else if v == "guarded" then some { st with c := { st.c with keyLenBits := 0 } }
+        else none
+    | _ => none
+  | _ => none
+
+/-- keys longer than 64 bytes are abbreviated identically on both sides -/
+def keyStr (k : Bytes) : String :=
+  if k.length > 64 then s!"#{k.length}:{Bytes.toHex (k.drop (k.length - 16))}" else k.toHex
+
+def entStr (e : Entry) : String := keyStr e.1 ++ "=" ++ e.2.toHex
+
+def entsStr (l : List Entry) : String :=
+  if l.isEmpty then "-" else ",".intercalate (l.map entStr)
+
+def optStr : Option Bytes → String
+  | none => "none"
+  | some v => v.toHex
+
+/-- the spec's raw key: user key ++ big-endian (2^64-1-version); this is the *statement* of the
+key layout (kv/key.go doc comment), not the configurable model encoding -/
+def specRaw (k : SpecKey) : Bytes := k.1 ++ beW 8 (maxU64 - k.2)
+
+def specEnts (l : List (SpecKey × Bytes)) : List Entry := l.map (fun e => (specRaw e.1, e.2))
+
+def bigKey (seed len : Nat) : Bytes := (List.range len).map (fun i => (i * 7 + seed) % 251)
+
+def both (a b : String) : String := s!"s={a} a={b}"
+
+def doAdd (st : St) (u : Bytes) (ver : Nat) (val : Bytes) : St :=
+  let k := mkKey st.c u ver
+  { st with skl := sklAdd st.c k val st.skl, art := st.art.add st.c k val,
+            spec := upsert specLt (u, ver) val st.spec }
+
+def doGet (st : St) (u : Bytes) (ver : Nat) : String :=
+  let k := mkKey st.c u ver
+  let m := both (optStr (sklSearch st.c k st.skl)) (optStr (st.art.search st.c k))
+  -- spec: newest version ≤ ver of the same user key
+  let r := match seekGE specLt (u, ver) st.spec with
+    | [] => none
+    | e :: _ => if e.1.1 = u then some e.2 else none
+  m ++ "\t" ++ both (optStr r) (optStr r)
+
+def parseTriple? (s : String) : Option (Bytes × Nat × Bytes) :=
+  match s.splitOn ":" with
+  | [u, v, x] => do let u ← bytesOf? u; let v ← natOf? v; let x ← bytesOf? x; pure (u, v, x)
+  | _ => none
+
+def step (st : St) (toks : List String) : St × String :=
+  match toks with
+  | "cfg" :: kvs =>
+    match kvs.foldlM setCfg st with
+    | some st' => (st', "ok")
+    | none => (st, "bad-cfg")
+  | ["init", _] => (st, "ok\tok")
+  | ["add", u, v, x] =>
+    match bytesOf? u, natOf? v, bytesOf? x with
+    | some u, some v, some x => (doAdd st u v x, "ok\tok")
+    | _, _, _ => (st, "bad-op")
+  | ["addbig", s, n, v, x] =>
+    match natOf? s, natOf? n, natOf? v, bytesOf? x with
+    | some s, some n, some v, some x => (doAdd st (bigKey s n) v x, "ok\tok")
+    | _, _, _, _ => (st, "bad-op")
+  | ["get", u, v] =>
+    match bytesOf? u, natOf? v with
+    | some u, some v => (st, doGet st u v)
+    | _, _ => (st, "bad-op")
+  | ["getbig", s, n, v] =>
+    match natOf? s, natOf? n, natOf? v with
+    | some s, some n, some v => (st, doGet st (bigKey s n) v)
+    | _, _, _ => (st, "bad-op")
+  | ["seek", dir, u, v, n] =>
+    match bytesOf? u, natOf? v, natOf? n with
+    | some u, some v, some n =>
+      let k := mkKey st.c u v
+      let asc := dir == "asc"
+      let s := if asc then sklSeekAsc st.c k st.skl else sklSeekDesc st.c k st.skl
+      let a := st.art.seek st.c asc k
+      let r := if asc then seekGE specLt (u, v) st.spec else seekLE specLt (u, v) st.spec
+      let rs := entsStr ((specEnts r).take n)
+      (st, both (entsStr (s.take n)) (entsStr (a.take n)) ++ "\t" ++ both rs rs)
+    | _, _, _ => (st, "bad-op")
+  | ["scan", dir] =>
+    let asc := dir == "asc"
+    let s := if asc then st.skl else sklScanDesc st.c st.skl
+    let a := st.art.scan asc
+    let r := if asc then specEnts st.spec else (specEnts st.spec).reverse
+    (st, both (entsStr s) (entsStr a) ++ "\t" ++ both (entsStr r) (entsStr r))
+  | ["conc", groups] =>
+    match ((groups.splitOn ";").flatMap (fun g => g.splitOn ",")).mapM parseTriple? with
+    | some ts =>
+      let st' := ts.foldl (fun s t => doAdd s t.1 t.2.1 t.2.2) st
+      let r := entsStr (specEnts st'.spec)
+      (st', both (entsStr st'.skl) (entsStr (st'.art.scan true)) ++ "\t" ++ both r r)
+    | none => (st, "bad-op")
+  | ["concstress", _, _, _] =>
+    -- many goroutines inserting disjoint keys into fresh indexes, repeated; the model of the
+    -- as-is ART (no parent re-validation, see NoKVModel/Index/ArtConc.lean) loses an insert
+    (st, both "ok" (if st.c.artParentRevalidated then "ok" else "lost") ++ "\t" ++ both "ok" "ok")
+  | _ => (st, "bad-op")
+
+def main : IO Unit := Driver.loop ({} : St) step
